@@ -148,6 +148,23 @@ def make_hook(prog: Program, extra: Callable[[ast.Call, Evaluator], Any] = None)
                     return run_method(m, base, a, k)
         return NotImplemented
 
+    def get_attr(base: Any, attr: str) -> Any:
+        if isinstance(base, SimpleNamespace) and hasattr(base, "__cls__"):
+            m = prog.find_method(base.__cls__, attr)
+            if m is not None and m.kind == "property":
+                return run_method(m, base, [], {})
+        return NotImplemented
+
+    def to_str(v: Any) -> str:
+        if isinstance(v, SimpleNamespace) and hasattr(v, "__cls__"):
+            m = prog.find_method(v.__cls__, "__str__")
+            if m is None:
+                raise Unknown("no __str__ on " + v.__cls__.qualname)
+            return run_method(m, v, [], {})
+        return str(v)
+
+    hook.getattr = get_attr  # type: ignore
+    hook.to_str = to_str  # type: ignore
     hook.instantiate = instantiate  # type: ignore
     hook.run_method = run_method  # type: ignore
     return hook
